@@ -390,6 +390,22 @@ def gen_cases(rng, tier, boost=1):
             kind = rng.choice(['deny', 'deny', 'allow'])
             names = rng.sample(ps, rng.randint(1, max(1, len(ps) - 1)))
             LISTS[o] = (kind, sorted(names))
+    if rng.random() < 0.06 and not LISTS:
+      # one file's alias is the real name of a sibling module that the next file imports: `m2.shared` is
+      # `c19pkg.sub.m3.shared` in the first file and `c19pkg.sub.m2.shared` in the second
+      enable = {'k': 'imp', 'module': ['__gin__', 'dynamic_registration'], 'from': True, 'alias': None}
+      first, second = rng.sample(['m2', 'm3'], 2)
+      units = [[enable, {'k': 'imp', 'module': ['c19pkg', 'sub', first], 'from': rng.random() < 0.5, 'alias': second},
+                {'k': 'bind', 'sel': [second, 'shared'], 'arg': 'a', 'v': rng.randint(1, 49),
+                 '_target': name_to_id(f'c19pkg.sub.{first}:shared')}, {'k': 'nop', '_symtab': {}}],
+               [enable, {'k': 'imp', 'module': ['c19pkg', 'sub', second], 'from': True, 'alias': None},
+                {'k': 'bind', 'sel': [second, 'shared'], 'arg': 'a', 'v': rng.randint(50, 99),
+                 '_target': name_to_id(f'c19pkg.sub.{second}:shared')}, {'k': 'nop', '_symtab': {}}]]
+      case = {'dom': 'dyn', 'units': units}
+      if prereg is not None:
+        case['_prereg'] = prereg
+      yield case
+      continue
     for _u in range(rng.randint(1, 2)):
       body = gen_file(rng, w, 0, {}, earlier)
       units.append(body)
